@@ -42,7 +42,7 @@ def optimize(update_working_block=True, block=None, skip_sanity_check=False):
     """
     block = working_block(block)
     if not update_working_block:
-        block = copy_block(block)
+        block = copy_block(block, update_working_block=False)
 
     with set_working_block(block, no_sanity_check=True):
         if (not skip_sanity_check) or _get_debug_mode():
